@@ -148,8 +148,8 @@ mutual
       (remapConstDyn r c).map refsConstDyn = omapM (codeApply r o) (refsConstDyn c)
     | .mk n d h args => by
       have ih := loadables_ok args
-      simp only [refsConstDyn, omapM_cons, omapM_append, ← handle_ok r o, ← ih, remapConstDyn, codeApply]
-      cases remapHandle r h <;> cases remapLoadables r args <;> simp [refsConstDyn]
+      simp only [refsConstDyn, omapM_cons, omapM_append, ← handle_ok r o, ← ih, remapConstDyn, codeApply, applyRef]
+      cases r.mapDesc d <;> cases remapHandle r h <;> cases remapLoadables r args <;> simp [refsConstDyn]
   theorem loadables_ok : ∀ ls : List Loadable,
       (remapLoadables r ls).map refsLoadables = omapM (codeApply r o) (refsLoadables ls)
     | [] => rfl
@@ -200,8 +200,8 @@ theorem insn_ok (i : Insn) :
     simp only [refsInsn, omapM_singleton, remapInsn, codeApply, applyRef]
     cases mapMethodRef r m <;> simp [refsInsn]
   | indy n d h args =>
-    simp only [refsInsn, omapM_cons, omapM_append, ← handle_ok r o, ← loadables_ok r o, remapInsn, codeApply]
-    cases remapHandle r h <;> cases remapLoadables r args <;> simp [refsInsn]
+    simp only [refsInsn, omapM_cons, omapM_append, ← handle_ok r o, ← loadables_ok r o, remapInsn, codeApply, applyRef]
+    cases r.mapDesc d <;> cases remapHandle r h <;> cases remapLoadables r args <;> simp [refsInsn]
   | cls op n =>
     simp only [refsInsn, omapM_singleton, remapInsn, codeApply, applyRef]
     cases mapClassAny r n <;> simp [refsInsn]
